@@ -78,7 +78,8 @@ RefAccept(p, a, pconst, aconst) ==
     ELSE IF IsChan(p) /\ IsChan(a) THEN
             LET cap(t) == CASE t = "uchan" -> 0 [] t = "bchan" -> 1 [] OTHER -> 2 IN cap(a) >= cap(p)
     ELSE IF aconst THEN AssignCompat(p, a)                    \* not an lvalue: falls to areAssignmentCompatible
-    ELSE Equivalent(a, p)
+    ELSE Equivalent(a, p) \/ (pconst /\ p = "int" /\ Integer(a))   \* `const int` is built without the default range `int` carries, and areEquivalent
+                                                                 \* compares bounds only when both sides have a range: a const int reference takes any integer lvalue
 
 ---------------------------------------------------------------------------
 Sym == \A op \in Ops : \A a \in Ty, b \in Ty : Rule(op, a, b) = Rule(op, b, a)
